@@ -52,6 +52,8 @@ def build(r, kind, thorough, spec=None, idx=0):
     if 'fixed' not in spec:
         spec['fixed'] = True
         st['t_first'] = (True, True, False, True)[j % 4] if kind == 'concat' else bool(j % 2) if kind in ('extend', 'remap', 'periodic', 'slice') else st['t_first']
+        if kind == 'slice':
+            st['diag_first'] = (True, True, False, True)[j % 4]
 
     def prep(p):
         if st['t_first']:
@@ -118,13 +120,31 @@ def build(r, kind, thorough, spec=None, idx=0):
         info.update(src=[p1.dt.copy()], newdt='tile d0 %d' % rep,
                     assigned='periodic_tau_assigned O %d %s d0' % (rep, cached_lit(p1)))
     elif kind == 'slice':
-        p1 = prep(mk('p', d=int(r.choice([2, 3])), G=int(r.integers(2, 6))))
+        p1 = mk('p', d=int(r.choice([2, 3])), G=int(r.integers(3, 8)))
         G = len(p1.dt)
-        a = spec.setdefault('a', int(r.integers(0, G)))
-        b = spec.setdefault('b', int(r.integers(a + 1, G + 1)))
-        intidx = spec.setdefault('intidx', bool(b == a + 1 and r.integers(0, 2)))
-        q = p1[a] if intidx else p1[a:b]
-        info.update(src=[p1.dt.copy()], newdt='slice %d %d d0' % (a, b), slice=(a, b), src_t=p1.t.copy())
+        if 'key' not in spec:
+            a = int(r.integers(0, G))
+            b = int(r.integers(a + 1, G + 1))
+            keys = [(None, None, 2), (0, G, 3), (None, None, -1), (None, 2, -2), (a, b, 1), (None, b, 1), (0, None, 2),
+                    (1, None, 2), (None, None, 3), (G - 1, None, -2), (a, b, 2), (None, None, 1)]
+            key = keys[j % len(keys)]
+            if len(range(G)[slice(*key)]) == 0:
+                key = (None, None, -1)
+            spec['key'] = list(key)
+            spec['intidx'] = bool(key[2] == 1 and key[0] is not None and key[1] == key[0] + 1 and r.integers(0, 2))
+            spec['diag_after'] = bool(r.integers(0, 2))
+        key = tuple(spec['key'])
+        p1 = prep(p1)                    # diagonalized / t cached BEFORE slicing, according to the state
+        q = p1[key[0]] if spec['intidx'] else p1[slice(*key)]
+        if spec['diag_after']:
+            q.diagonalize()
+        idxs = list(range(G)[slice(*key)])
+        info.update(src=[p1.dt.copy()], newdt='select (o0 O) [%s] d0' % '; '.join('%d%%nat' % i for i in idxs),
+                    select=idxs, src_pulse=p1)
+        if key[2] == 1 and not spec['intidx']:
+            a0 = 0 if key[0] is None else key[0]
+            b0 = G if key[1] is None else key[1]
+            info['newdt_alt'] = 'slice %d %d d0' % (a0, b0)
     elif kind == 'extend':
         p1 = prep(mk('p', d=2, G=int(r.integers(1, 4)), basis_kind='pauli'))
         pos = spec.setdefault('pos', int(r.integers(0, 2)))
@@ -278,6 +298,46 @@ def predicates(q, tau0, tqs):
     return bad
 
 
+def beyond_tau(q):
+    """times beyond t[-1] are rejected with a ValueError (since /repo d28f031), t[-1] itself is accepted"""
+    bad = []
+    t = q.t
+    try:
+        q.propagator_at_arb_t(np.array([0.0, np.nextafter(t[-1], np.inf)]))
+        bad.append(('arb_t beyond tau', 'c02-arb-beyond-tau', 'no error for t = nextafter(t[-1]) > t[-1]'))
+    except ValueError:
+        pass
+    except Exception as e:      # noqa
+        bad.append(('arb_t beyond tau', 'c02-arb-beyond-tau', 'raised %r instead of ValueError' % (e,)))
+    return bad
+
+
+def slice_vs_fresh(q, p1, idxs, obs):
+    """the sliced pulse against a freshly constructed pulse of the selected segments"""
+    bad = []
+    idxs = list(idxs)
+    fresh = ff.PulseSequence(list(zip(p1.c_opers, p1.c_coeffs[:, idxs], p1.c_oper_identifiers)),
+                             list(zip(p1.n_opers, p1.n_coeffs[:, idxs], p1.n_oper_identifiers)),
+                             p1.dt[idxs], basis=p1.basis)
+    for nm in ('dt', 'c_coeffs', 'n_coeffs', 'c_opers', 'n_opers'):
+        if not np.array_equal(getattr(q, nm), getattr(fresh, nm)):
+            bad.append(('slice', 'c02-slice-hamiltonian', '%s of the slice differs from the selected segments %s' % (nm, idxs)))
+    if bad:
+        return bad
+    if np.abs(obs['Q'] - fresh.propagators).max() > 1e-10 * max(1.0, len(idxs)):
+        bad.append(('slice propagators', 'c02-slice-propagators',
+                    'propagators of the slice (segments %s) differ from a fresh pulse by %.3g' % (idxs, np.abs(obs['Q'] - fresh.propagators).max())))
+    if np.abs(obs['total'] - fresh.total_propagator).max() > 1e-10 * max(1.0, len(idxs)):
+        bad.append(('slice total propagator', 'c02-slice-propagators', 'total propagator of the slice differs from a fresh pulse'))
+    if np.abs(obs['t'] - fresh.t).max() > TOL_T * max(fresh.t[-1], 1e-300) or abs(obs['tau1'] - fresh.tau) > TOL_T * max(fresh.t[-1], 1e-300):
+        bad.append(('slice t / tau', 'c02-slice-t', 't / tau of the slice differ from a fresh pulse'))
+    if len(obs['tqs']):
+        tq = np.minimum(obs['tqs'], fresh.t[-1])
+        if np.abs(q.propagator_at_arb_t(tq) - fresh.propagator_at_arb_t(tq)).max() > 1e-9 * max(1.0, len(idxs)):
+            bad.append(('slice arb_t', 'c02-slice-propagators', 'propagator_at_arb_t of the slice differs from a fresh pulse'))
+    return bad
+
+
 # ------------------------------------------------------------------ Coq case
 def tol_lit(O, x):
     return '(dy %s %s%%Z)' % (O, dylit(float(x)))
@@ -299,6 +359,8 @@ def coq_case(name, q, info, obs, big):
         f"tallyR O {tol_lit(O, TOL_T * tscale)} {rvec_lit([obs['tau1']])}%Z [tau_get O (Some ts) newdt]",
     ]
     parts.append(f"tallyR O {tol_lit(O, TOL_T * tscale)} {rvec_lit([obs['tau0']])}%Z [tau_get O None newdt]")
+    if 'newdt_alt' in info:
+        parts.append(f"tallyR O {tol_lit(O, 1e-13 * max(np.abs(q.dt).max(), 1e-30))} {rvec_lit(q.dt)}%Z ({info['newdt_alt']})")
     if 'assigned' in info:
         parts.append(f"tallyR O {tol_lit(O, TOL_T * tscale)} {rvec_lit([obs['tau0']])}%Z [{info['assigned']}]")
     if 'copied' in info:
@@ -341,6 +403,9 @@ def one_case(r, kind, thorough, spec=None, idx=0):
     try:
         obs = observe(r, q, with_queries=True)
         bad = predicates(q, obs['tau0'], obs['tqs'])
+        bad += beyond_tau(q)
+        if 'select' in info:
+            bad += slice_vs_fresh(q, info['src_pulse'], info['select'], obs)
     except Exception as e:      # noqa: the implementation raised on an input of the property's domain
         import traceback
         return q, info, None, [('exception', 'c02-exception', 'implementation raised %r (%s)' % (e, traceback.format_exc().strip().split('\n')[-3].strip()))]
